@@ -182,6 +182,9 @@ def run(tier: str, seed: int) -> int:
     cases = chk.generate("Gen_C16")
     obs = drive("harness.props.c16", "drive_case", cases, chunk=60)
     verdicts = chk.judge("Judge_C16", obs)
+    from .. import corrupt as _corrupt
+
+    chk.binding_selftest("Judge_C16", obs, verdicts, _corrupt.c16)
     by_id = {o["id"]: o for o in obs}
     chk.absorb(verdicts, by_id, {c["id"]: c for c in cases})
     eff = sum(1 for o in obs if o["effect"])
